@@ -27,36 +27,9 @@ def run(prog: Program, ctx: Ctx) -> None:  # noqa: PLR0912,PLR0915
     tby = prog.function(f"{D}._type_based_yield")
 
     # ------------------------------------------------------------------ R1 public frontier
-    ctx.rule("R1", "every breakage that can come out of the member walk is dominated by `old_member.is_public`; the walk iterates and "
-                   "looks up through all_members on both sides (inherited and re-exported members included)")
-    cfg = cfg_of(mi)
-    ynodes = [n for n in cfg.live_nodes() if n.stmt is not None and any(isinstance(x, (ast.Yield, ast.YieldFrom)) for x in walk_no_nested(n.stmt, include_self=True))
-              and n.kind in ("stmt", "return")]
-    ctx.expect_min("R1", len(ynodes), 2)
-    loops = [n for n in walk_no_nested(mi.node) if isinstance(n, ast.For)]
-    if len(loops) != 1:
-        raise AnalysisError("C11-R1: expected exactly one member loop in _member_incompatibilities")
-    loop = loops[0]
-    tv = None
-    if isinstance(loop.target, ast.Tuple) and len(loop.target.elts) == 2:
-        tv = unparse(loop.target.elts[1])
-    it = unparse(loop.iter)
-    old_param = mi.params[0]
-    new_param = mi.params[1]
-    ctx.ob("R1", key(mi, "iterates-all_members"), it.replace(" ", "") == f"{old_param}.all_members.items()",
-           f"the walk iterates `{it}` (must be the old object's all_members: inherited / re-exported members are part of the API)", where(mi, loop))
-    for y in ynodes:
-        ok = tv is not None and cfg.dominated_by_fact(y, lambda a, t: t and unparse(a) == f"{tv}.is_public")
-        ctx.ob("R1", key(mi, f"public-dominates:{norm(y.stmt, 70)}"), ok,
-               f"`{norm(y.stmt, 60)}` is reached only for public old members", where(mi, y.stmt))
-    attrs_new = {n.attr for n in walk_no_nested(mi.node) if isinstance(n, ast.Attribute) and dotted(n.value) == new_param}
-    attrs_old = {n.attr for n in walk_no_nested(mi.node) if isinstance(n, ast.Attribute) and dotted(n.value) == old_param}
-    ctx.ob("R1", key(mi, "lookup-all_members"), "all_members" in attrs_new and not (attrs_new & {"members", "inherited_members"}),
-           f"the new side is looked up through all_members only (attributes used: {sorted(attrs_new)})", where(mi))
-    ctx.ob("R1", key(mi, "old-side-all_members-only"), not (attrs_old & {"members", "inherited_members"}),
-           f"the old side is walked through all_members only (attributes used: {sorted(attrs_old)})", where(mi))
-
-    # ------------------------------------------------------------------ abstract tables (R2, R3)
+    ctx.rule("R1", "the member walk reports only on public old members, and it walks and looks up through all_members on both sides: a public "
+                   "member the old class only inherits is compared, and it is not 'removed' when the new class merely inherits it too")
+    # (decided on behaviour, with the member-walk rows below: see "R1 rows")
     itp = Interp(prog)
     K = {k: itp.enum("_griffe.enumerations.Kind", k) for k in ("MODULE", "CLASS", "FUNCTION", "ATTRIBUTE", "ALIAS")}
     ocls = prog.cls("_griffe.models.Object")
@@ -181,6 +154,39 @@ def run(prog: Program, ctx: Ctx) -> None:  # noqa: PLR0912,PLR0915
             good = names == ["ObjectRemovedBreakage"] and out[0].attrs.get("obj") is m_old
             want = "one ObjectRemovedBreakage on the old member"
         ctx.ob("R3", f"member|public={public}|alias={alias}|{kind}|present={present}", good, f"expected {want}; got yields={names} calls={[c[0] for c in calls]}", where(mi))
+    # R1 rows: own and inherited members on both sides
+    def holder(own: dict, inherited: dict) -> Obj:
+        return Obj(ocls, {"path": "p.C", "members": dict(own), "inherited_members": dict(inherited), "all_members": {**inherited, **own}})
+
+    n_r1 = 0
+    for inh_public, new_has in itertools.product((True, False), ("own", "inherited", "absent")):
+        calls.clear()
+        own_old = member("FUNCTION", alias=False, path="p.C.m", name="m")
+        inh_old = member("FUNCTION", alias=True, path="p.C.i", name="i", public=inh_public)
+        own_new = member("FUNCTION", alias=False, path="p.C.m", name="m")
+        inh_new = member("FUNCTION", alias=new_has == "inherited", path="p.C.i", name="i")
+        old = holder({"m": own_old}, {"i": inh_old})
+        new = holder({"m": own_new, **({"i": inh_new} if new_has == "own" else {})}, {"i": inh_new} if new_has == "inherited" else {})
+        try:
+            out = itp.call(mi, old, new)
+        except Raised as r:
+            out = [f"<raised {r.exc}>"]
+        out = [o for o in out if not isinstance(o, Sym)]  # (what the stubbed dispatch returned)
+        names = [o.cls.name if isinstance(o, Obj) and o.cls else str(o) for o in out]
+        pairs = [(c[0], c[1][0], c[1][1]) for c in calls]
+        want_pairs = [("_type_based_yield", own_old, own_new)]
+        want_names: list[str] = []
+        if inh_public and new_has != "absent":
+            want_pairs.append(("_type_based_yield", inh_old, inh_new))
+        if inh_public and new_has == "absent":
+            want_names = ["ObjectRemovedBreakage"]
+        good = sorted(pairs, key=lambda t: t[1].attrs["name"]) == sorted(want_pairs, key=lambda t: t[1].attrs["name"]) and names == want_names and (
+            not want_names or out[0].attrs.get("obj") is inh_old)
+        n_r1 += 1
+        ctx.ob("R1", f"walk|inherited member public={inh_public}|new side: {new_has}", good,
+               f"old class defines m and inherits i ({'public' if inh_public else 'not public'}); the new class has i {new_has}: expected comparisons of "
+               f"{[t[1].attrs['name'] for t in want_pairs]} and yields {want_names}; got comparisons of {[t[1].attrs['name'] for t in pairs]} and yields {names}", where(mi))
+    ctx.expect_min("R1", n_r1, 6)
     # class bases
     ci = prog.function(f"{D}._class_incompatibilities")
     itp.stubs.pop(f"{D}._class_incompatibilities", None)
@@ -206,25 +212,18 @@ def run(prog: Program, ctx: Ctx) -> None:  # noqa: PLR0912,PLR0915
     ad = AliasDeref(prog, cg)
     scope = [f for f in prog.functions.values() if f.module.name == D]
     # keys use canonical names (sa.util.canon_names: parameters p0.., other bound names v0.. by first binding), so renaming variables changes nothing
-    TABLED = {
-        (f"{D}._member_incompatibilities", "p0.all_members"): "walk root: called with modules/classes from the non-alias arms of the dispatch (checked below)",
-        (f"{D}._member_incompatibilities", "p1.all_members"): "same",
-        (f"{D}._class_incompatibilities", "p1.bases"): "called from the class arm of the dispatch, which is dominated by neither side being an alias",
-        (f"{D}._class_incompatibilities", "p0.bases"): "same",
-        (f"{D}._function_incompatibilities", "p1.parameters"): "function arm of the dispatch (neither side an alias)",
-        (f"{D}._function_incompatibilities", "p0.parameters"): "same",
-        (f"{D}._function_incompatibilities", "p0.returns"): "same",
-        (f"{D}._function_incompatibilities", "p1.returns"): "same",
-        (f"{D}._returns_are_compatible", "p0.returns"): "same",
-        (f"{D}._returns_are_compatible", "p1.returns"): "same",
-        (f"{D}._attribute_incompatibilities", "p0.value"): "attribute arm of the dispatch (neither side an alias)",
-        (f"{D}._attribute_incompatibilities", "p1.value"): "same",
+    # The kind-specific comparisons are private helpers: their dereferences are discharged through their call sites (sa.aliasderef, "caller-guarded":
+    # the dispatch calls them only when neither side is an alias).  What the analysis cannot see is the public entry point's own arguments:
+    ROOTS = {
+        (f"{D}.find_breaking_changes", "old_obj"): "walk root: the two API roots handed to find_breaking_changes are loaded modules / classes (its documented use), not dangling aliases",
+        (f"{D}.find_breaking_changes", "new_obj"): "same",
     }
+    TABLED = {}
     PARENT = "the reported alias sits in a loaded tree: its parent is the object whose members were walked (a non-alias arm of the dispatch, or the caller's resolved root)"
     for helper, attr in (("_filepath", "filepath"), ("_relative_filepath", "relative_filepath"), ("_relative_package_filepath", "relative_package_filepath"),
                          ("_module_path", "module")):
         TABLED[(f"{D}.Breakage.{helper}", f"self.obj.parent.{attr}")] = PARENT
-    sites = ad.scan(scope, TABLED, object_may_be_alias=True)  # in diff.py members typed `Object` are routinely aliases (re-exports)
+    sites = ad.scan(scope, TABLED, object_may_be_alias=True, assume=ROOTS)  # in diff.py members typed `Object` are routinely aliases (re-exports)
     # Methods of the Breakage classes: `self.obj` is the reported member (declared `Object`, routinely an alias).  `old_value` / `new_value` are
     # declared `Any`; what the walk stores there (parameters, kinds, expressions, strings) is exercised by the totality table R8 instead of being
     # guessed here from untyped receivers.
@@ -233,21 +232,8 @@ def run(prog: Program, ctx: Ctx) -> None:  # noqa: PLR0912,PLR0915
         ctx.ob("R4", key(st.fn, f"deref:{canon_text(st.fn, st.node)}"), st.status != "OPEN",
                f"{st.status}: {st.reason}" if st.status != "OPEN" else st.reason + ": the error would abort find_breaking_changes", where(st.fn, st.node))
     ctx.expect_min("R4", len(sites), 8)
-    # the tabled reasons rest on the dispatch: the kind arms of _type_based_yield are reached only when neither side is an alias
-    cfgt = cfg_of(tby)
-    idx = node_index(tby)
-    o_p, n_p = tby.params[0], tby.params[1]
-    n_arms = 0
-    for c in calls_in(tby.node):
-        tq = {x.qualname for x, _k in cg.callees_of_call(tby, c) if isinstance(x, FunctionInfo)}
-        if tq & {f"{D}._member_incompatibilities", f"{D}._class_incompatibilities", f"{D}._function_incompatibilities", f"{D}._attribute_incompatibilities"}:
-            n_arms += 1
-            for n in idx.get(id(c), []):
-                a_ok = cfgt.dominated_by_fact(n, lambda a, t: not t and unparse(a) == f"{o_p}.is_alias")
-                b_ok = cfgt.dominated_by_fact(n, lambda a, t: not t and unparse(a) == f"{n_p}.is_alias")
-                ctx.ob("R4", key(tby, f"arm-not-alias:{norm(c.func)}"), a_ok and b_ok, "kind-specific comparison runs only when neither side is an alias", where(tby, c))
-    ctx.expect_min("R4", n_arms, 4)
-
+    # (that the kind-specific comparisons - whose parameters are declared Class / Function / Attribute - run only when neither side is an alias is
+    # decided on behaviour by the R2 table: every row with an alias on either side must reach the alias handler and nothing else)
     # ------------------------------------------------------------------ R5 registries and exit code
     ctx.rule("R5", "each BreakageKind has exactly one Breakage subclass; each ExplanationStyle has an _explain_<value> method; the CLI check "
                    "prints every breakage and returns 1 exactly when the list is non-empty")
@@ -267,61 +253,60 @@ def run(prog: Program, ctx: Ctx) -> None:  # noqa: PLR0912,PLR0915
         if isinstance(v, ast.Constant):
             ctx.ob("R5", f"style|{m}", bool(prog.lookup_method(base, f"_explain_{v.value}")), f"Breakage._explain_{v.value} exists for ExplanationStyle.{m}", where(prog.lookup_method(base, 'explain')[0]))
     chk = prog.function("_griffe.cli.check")
-    cfgc = cfg_of(chk)
-    fb = [c for c in calls_in(chk.node) if any(isinstance(x, FunctionInfo) and x.qualname == f"{D}.find_breaking_changes" for x, _k in cg.callees_of_call(chk, c))]
-    if len(fb) != 1:
-        raise AnalysisError("C11-R5: expected one find_breaking_changes call in cli.check")
-    from sa.util import stmt_of
+    # the CLI check, on behaviour: evaluated with the loaders, git helpers, the comparison, explain(), colorama, the environment and print replaced by
+    # recording stand-ins.  Rows: number of breakages x new side from a git reference or from the working tree x explicit or latest-tag old reference.
+    n5 = 0
+    bcls = prog.cls(f"{D}.Breakage")
+    for n_br, base_ref, against in itertools.product((0, 1, 2), (None, "feature"), (None, "v0")):
+        it5 = Interp(prog)
+        log: list[tuple[str, tuple, dict]] = []
 
-    st = stmt_of(fb[0])
-    var = unparse(st.targets[0]) if isinstance(st, ast.Assign) else None
-    ctx.ob("R5", key(chk, "breakages-collected"), var is not None, "the result of find_breaking_changes is collected into a list", where(chk, st))
-    if var is not None:
-        fb_nodes = [n for n in cfgc.live_nodes() if n.stmt is st]
-        after = cfgc.reach(fb_nodes, normal_only=True)
-        rets = [n for n in after if n.kind == "return"]
-        for r in rets:
-            v = r.expr.value if isinstance(r.expr, ast.Constant) else None
-            if v == 1:
-                ok = cfgc.dominated_by_fact(r, lambda a, t: t and unparse(a) == var)
-                ctx.ob("R5", key(chk, "exit-1-iff-breakages"), ok, "return 1 after the comparison is reached only when the list is non-empty", where(chk, r.stmt))
-            elif v == 0:
-                ok = cfgc.dominated_by_fact(r, lambda a, t: not t and unparse(a) == var)
-                ctx.ob("R5", key(chk, "exit-0-iff-none"), ok, "return 0 after the comparison is reached only when the list is empty", where(chk, r.stmt))
-            else:
-                ctx.ob("R5", key(chk, f"exit-other:{norm(r.stmt)}"), False, "unexpected exit code after the comparison", where(chk, r.stmt))
-        ctx.expect_min("R5", len(rets), 2)
-        printed = False
-        for n in walk_no_nested(chk.node):
-            if isinstance(n, ast.For) and unparse(n.iter) == var:
-                tvn = unparse(n.target)
-                printed = any(isinstance(c, ast.Call) and dotted(c.func) == "print" and c.args and f"{tvn}.explain" in unparse(c.args[0]) for c in ast.walk(n))
-        ctx.ob("R5", key(chk, "every-breakage-printed"), printed, "every collected breakage is printed through explain()", where(chk))
-    # the two (three) loads of the CLI check: old from `against`, new from `base_ref` (git) or the working tree
-    loads = []
-    for c in calls_in(chk.node):
-        tq = {x.qualname for x, _k in cg.callees_of_call(chk, c) if isinstance(x, FunctionInfo)}
-        if tq & {"_griffe.loader.load_git", "_griffe.loader.load"}:
-            loads.append((c, "git" if "_griffe.loader.load_git" in tq else "tree"))
-    ctx.expect_min("R5", len(loads), 3)
-    from sa.util import kwarg_deep
+        def rec(name, ret, log=log):
+            def f(_i, *a, **k):
+                log.append((name, a, k))
+                return ret(a, k) if callable(ret) else ret
+            return f
 
-    for c, how in loads:
-        tgt = unparse(stmt_of(c).targets[0]) if isinstance(stmt_of(c), ast.Assign) else "?"
-        ref, unresolved = kwarg_deep(chk, c, "ref")
-        if ref is None and unresolved:
-            ctx.note("R5: a load in cli.check passes its reference through an unresolved ** mapping; not judged")
-            continue
-        first = unparse(c.args[0]) if c.args else "?"
-        if tgt == unparse(fb[0].args[0]):  # the old package
-            ok = how == "git" and ref is not None and unparse(ref) == "against" and first in ("against_path", "package")
-            ctx.ob("R5", key(chk, "old-loaded-from-against"), ok, f"old package = load_git({first}, ref={unparse(ref) if ref else None}) (must be the `against` reference)", where(chk, c))
-        elif tgt == unparse(fb[0].args[1]):
-            if how == "git":
-                ok = ref is not None and unparse(ref) == "base_ref" and first == "package"
-                ctx.ob("R5", key(chk, "new-loaded-from-base_ref"), ok, f"new package (git) = load_git({first}, ref={unparse(ref) if ref else None}) (must be `base_ref`)", where(chk, c))
-            else:
-                ctx.ob("R5", key(chk, "new-loaded-from-tree"), first == "package", f"new package (working tree) = load({first})", where(chk, c))
+        old_pkg, new_git, new_tree = (Obj(None, {"__closed__": True}, label=x) for x in ("old package", "new package (git)", "new package (tree)"))
+        brs = [Obj(bcls, {"__closed__": True}, label=f"breakage{i}") for i in range(n_br)]
+        it5.stubs["_griffe.git.get_latest_tag"] = rec("get_latest_tag", "latest-tag")
+        it5.stubs["_griffe.git.get_repo_root"] = rec("get_repo_root", "/repo-root")
+        it5.stubs["_griffe.extensions.base.load_extensions"] = rec("load_extensions", Sym("<extensions>"))
+        it5.stubs["_griffe.loader.load_git"] = rec("load_git", lambda a_, k_, o=old_pkg, g=new_git, ag=against: o if k_.get("ref") == (ag or "latest-tag") else g)
+        it5.stubs["_griffe.loader.load"] = rec("load", new_tree)
+        it5.stubs[f"{D}.find_breaking_changes"] = rec("find_breaking_changes", lambda _a, _k, brs=brs: iter(list(brs)))
+        it5.stubs[f"{D}.Breakage.explain"] = rec("explain", lambda a_, _k: f"explanation of {a_[0].label}")
+        for ext in ("colorama.deinit", "colorama.init", "os.getenv", "builtins.print"):
+            it5.ext_handlers[ext] = rec(ext.split(".")[-1], None)
+        try:
+            rc: object = it5.call(chk, "pkg", against, None, base_ref=base_ref)
+        except Raised as r:
+            rc = f"raises {r.exc}"
+        n5 += 1
+        row = f"cli|breakages={n_br}|base_ref={base_ref}|against={against}"
+        printed = [c[1][0] for c in log if c[0] == "print" and c[1]]
+        cmp_calls = [c for c in log if c[0] == "find_breaking_changes"]
+        new_want = new_git if base_ref else new_tree
+        loads = [(c[0], c[1][0] if c[1] else None, c[2].get("ref")) for c in log if c[0] in ("load_git", "load")]
+        want_loads = [("load_git", "pkg", against or "latest-tag"), ("load_git", "pkg", base_ref) if base_ref else ("load", "pkg", None)]
+        ctx.ob("R5", row + "|exit-code", rc == (1 if n_br else 0), f"{n_br} breakage(s): exit code {rc} (1 exactly when there is at least one)", where(chk))
+        ctx.ob("R5", row + "|printed", printed == [f"explanation of breakage{i}" for i in range(n_br)],
+               f"every breakage is explained and printed once, in order: printed {printed}", where(chk))
+        ctx.ob("R5", row + "|sides", sorted(loads, key=str) == sorted(want_loads, key=str) and len(cmp_calls) == 1 and cmp_calls[0][1][:2] == (old_pkg, new_want),
+               f"old = load_git(package, ref=`against` or the latest tag), new = {'load_git(package, ref=base_ref)' if base_ref else 'load(package) from the working tree'}, "
+               f"compared as (old, new): loads {loads}, comparison on {[x.label if isinstance(x, Obj) else x for x in (cmp_calls[0][1][:2] if cmp_calls else ())]}", where(chk))
+    ctx.expect_min("R5", n5, 12)
+    fbc = prog.function(f"{D}.find_breaking_changes")
+    it5 = Interp(prog)
+    seen_calls: list[tuple] = []
+    it5.stubs[mi.qualname] = lambda _i, *a_, **_k: (seen_calls.append(a_), [])[1]
+    r_old, r_new = Obj(None, {"__closed__": True}, label="old root"), Obj(None, {"__closed__": True}, label="new root")
+    try:
+        list(it5.call(fbc, r_old, r_new) or [])
+    except Raised:
+        pass
+    ctx.ob("R5", key(fbc, "delegates-to-member-walk"), len(seen_calls) == 1 and seen_calls[0][:2] == (r_old, r_new),
+           "find_breaking_changes walks (old, new) in that order", where(fbc))
     ctx.rule("R6", "is_public (the frontier predicate of the diff) equals the documented decision table on every abstract state")
     from sa.tables import visibility
 
@@ -332,10 +317,6 @@ def run(prog: Program, ctx: Ctx) -> None:  # noqa: PLR0912,PLR0915
            f"is_public differs from the documented table on {len(bad)} states, e.g. code={bad[0][1]} doc={bad[0][2]} for [{visibility.fmt(bad[0][0])}]", where(ipf),
            {"first_rows": [(visibility.fmt(s_), g, w) for s_, g, w in bad[:5]]})
     ctx.expect_min("R6", len(rows), 400)
-    fbc = prog.function(f"{D}.find_breaking_changes")
-    deleg = [c for c in calls_in(fbc.node) if any(isinstance(x, FunctionInfo) and x.qualname == mi.qualname for x, _k in cg.callees_of_call(fbc, c))]
-    ctx.ob("R5", key(fbc, "delegates-to-member-walk"), len(deleg) == 1 and [unparse(a) for a in deleg[0].args] == fbc.params[:2],
-           "find_breaking_changes walks (old, new) in that order", where(fbc))
 
     # ------------------------------------------------------------------ R7 compatible additions are silent
     ctx.rule("R7", "adding optional parameters in a way that leaves every existing call valid and bound to the same parameters (an optional keyword-only "
